@@ -419,8 +419,8 @@ func (h *harness) exercise(row authMsg, pl payload, vs []variant) {
 				rep.Sample(map[string]interface{}{"type": row.URL, "variant": pl.Variant, "authority_class": v.Class, "authority": v.Value, "level": lv, "outcome": errClass(err), "stores_changed": changed})
 			}
 
-			// correspondence with the model's guard (fx-core rows, payloads the gov authority gets accepted)
-			if row.InFx && posOK && lv != "T" {
+			// correspondence with the model guard (every row; payloads the gov authority gets accepted)
+			if posOK && lv != "T" {
 				level := "LvRouter"
 				if lv == "B" {
 					level = "LvDirect"
